@@ -26,8 +26,9 @@
    pre-hard-fork cost model, where it is FALSE on the class of finding F6 (the 64-bit product
    wraps: the reported cost is smaller than the base that was checked against the budget;
    C02_tight_refuted_F6, found by ws-ops while proving the contract). Hence: proved outright for
-   RuntimeDialect with NEW_COST_MODEL (C02_tight_runtime_new); for pre-hard-fork dialects it is
-   proved under [dop_tight], which excludes the F6 class; the check reports F6 as KNOWN-FINDING. *)
+   RuntimeDialect with NEW_COST_MODEL (C02_tight_runtime_new) and, for ChiaDialect under the
+   pre-hard-fork cost model, for every run that does not meet the F6 class
+   (C02_tight_chia_outside_F6); the check reports F6 as KNOWN-FINDING. *)
 From Clvm Require Import Model.Machine Model.Dialect Model.OpsUnknown Proofs.MachineBudget Proofs.MachineTight
   Proofs.DialectContracts Proofs.OpContractsMore Proofs.UnknownProofs Model.U64.
 Open Scope N_scope.
@@ -81,6 +82,16 @@ Proof.
   - intros x; discriminate.
 Qed.
 
+(* tightness for ChiaDialect under the pre-hard-fork cost model, for every run that stays outside
+   the F6 class: [nowrap_dialect] is ChiaDialect with one change - an operator call whose
+   unknown-operator cost product would wrap 64 bits is reported as Err (Overflow 64); so the
+   premise says "the program succeeds under M1 without meeting the F6 class" *)
+Theorem C02_tight_chia_outside_F6 : forall P flags, f_new_cost_model flags = false ->
+  forall fuel p e M1 M2 C v,
+  run_program (nowrap_dialect P flags) fuel p e M1 = Ok (C, v) ->
+  (run_program (chia_dialect P flags) fuel p e M2 = Ok (C, v) <-> C <= eff M2).
+Proof. exact chia_tight_outside_F6. Qed.
+
 (* finding F6 at operator level: the reported cost is 2375088102, yet the budget 3000000000 fails *)
 Theorem C02_tight_refuted_F6 :
   unknown_cost f6_op f6_lens false U64_MAX = Ok 2375088102 /\
@@ -93,7 +104,8 @@ Example C02_witness : forall P,
   let prog := Cons (Atom [16]) (Cons (Cons (Atom [1]) (Atom [1])) (Cons (Cons (Atom [1]) (Atom [2])) (Atom []))) in
   run_program (chia_dialect P (flags_of_N 0)) 100 prog (Atom []) 0 = Ok (796, Atom [3]) /\
   run_program (chia_dialect P (flags_of_N 0)) 100 prog (Atom []) 796 = Ok (796, Atom [3]) /\
-  run_program (chia_dialect P (flags_of_N 0)) 100 prog (Atom []) 795 = Err CostExceeded.
+  run_program (chia_dialect P (flags_of_N 0)) 100 prog (Atom []) 795 = Err CostExceeded /\
+  run_program (nowrap_dialect P (flags_of_N 0)) 100 prog (Atom []) 0 = Ok (796, Atom [3]).
 Proof. intros P. vm_compute. repeat split. Qed.
 
 Print Assumptions C02_sound.
@@ -106,5 +118,6 @@ Print Assumptions C02_chia_contract.
 Print Assumptions C02_hiding_contract.
 Print Assumptions C02_runtime_contract.
 Print Assumptions C02_tight_runtime_new.
+Print Assumptions C02_tight_chia_outside_F6.
 Print Assumptions C02_tight_refuted_F6.
 Print Assumptions C02_witness.
